@@ -147,11 +147,11 @@ package genetics
 //@ ufunc distU(Int, Int) Float
 //@ func (*Genome).compatibility
 //@   props C07
-//@   requires g != nil && og != nil && opts != nil
+//@   requires g != nil && og != nil && opts != nil && nonNilGenes(g.Genes) && nonNilGenes(og.Genes)
 //@   modifies nothing
 //@   noalloc
 //@   free_ensures [function] result == distU(g, og)
-//@ pred speciesOrgsWF(p *Population) = forall i :: 0 <= i && i < len(p.Species) ==> p.Species[i] != nil && (forall k :: 0 <= k && k < len(p.Species[i].Organisms) ==> p.Species[i].Organisms[k] != nil && p.Species[i].Organisms[k].Genotype != nil)
+//@ pred speciesOrgsWF(p *Population) = forall i :: 0 <= i && i < len(p.Species) ==> p.Species[i] != nil && (forall k :: 0 <= k && k < len(p.Species[i].Organisms) ==> p.Species[i].Organisms[k] != nil && p.Species[i].Organisms[k].Genotype != nil && nonNilGenes(p.Species[i].Organisms[k].Genotype.Genes))
 //@ func NewSpeciesNovel
 //@   props C08
 //@   modifies nothing
@@ -171,11 +171,11 @@ package genetics
 //@ func (*Population).speciate
 //@   props C08
 //@   requires p != nil && neat.ErrNEATOptionsNotFound != nil
-//@   requires forall i :: 0 <= i && i < len(organisms) ==> organisms[i] != nil && organisms[i].Genotype != nil
+//@   requires forall i :: 0 <= i && i < len(organisms) ==> organisms[i] != nil && organisms[i].Genotype != nil && nonNilGenes(organisms[i].Genotype.Genes)
 //@   requires speciesOrgsWF(p)
 //@   loop 1:
 //@     invariant -1 <= #idx && #idx < len(organisms) && opts != nil
-//@     invariant forall i :: 0 <= i && i < len(organisms) ==> organisms[i] != nil && organisms[i].Genotype != nil
+//@     invariant forall i :: 0 <= i && i < len(organisms) ==> organisms[i] != nil && organisms[i].Genotype != nil && nonNilGenes(organisms[i].Genotype.Genes)
 //@     invariant speciesOrgsWF(p)
 //@   loop 2:
 //@     invariant -1 <= #idx && #idx < len(p.Species)
@@ -268,3 +268,17 @@ package genetics
 //@     invariant numMatching + real(cmpM(arrOf(g.Genes), off(g.Genes), len(g.Genes), arrOf(og.Genes), off(og.Genes), len(og.Genes), heapOf(Gene.InnovationNum), i1, i2)) == real(cmpM(arrOf(g.Genes), off(g.Genes), len(g.Genes), arrOf(og.Genes), off(og.Genes), len(og.Genes), heapOf(Gene.InnovationNum), 0, 0))
 //@     invariant mutDiffTotal + cmpW(arrOf(g.Genes), off(g.Genes), len(g.Genes), arrOf(og.Genes), off(og.Genes), len(og.Genes), heapOf(Gene.InnovationNum), heapOf(Gene.MutationNum), i1, i2) == cmpW(arrOf(g.Genes), off(g.Genes), len(g.Genes), arrOf(og.Genes), off(og.Genes), len(og.Genes), heapOf(Gene.InnovationNum), heapOf(Gene.MutationNum), 0, 0)
 //@     invariant numMatching >= 0.0 && numDisjoint >= 0.0 && numExcess >= 0.0
+// compatFast: index / nil safety of the backward walk and definedness of its division are proved; its agreement with
+// the formula above is covered by the exhaustive bounded oracle only (labelled bounded).
+//@ func (*Genome).compatFast
+//@   props C07
+//@   fdef
+//@   ufarith
+//@   requires g != nil && og != nil && opts != nil && nonNilGenes(g.Genes) && nonNilGenes(og.Genes)
+//@   modifies nothing
+//@   noalloc
+//@   ensures [emptyBoth] len(g.Genes) == 0 && len(og.Genes) == 0 ==> result == 0.0
+//@   loop 1:
+//@     invariant 0 <= list1Idx && list1Idx < list1Count && 0 <= list2Idx && list2Idx < list2Count && list1Count == len(g.Genes) && list2Count == len(og.Genes)
+//@     invariant gene1 == g.Genes[list1Idx] && gene2 == og.Genes[list2Idx] && numMatching >= 0
+//@     invariant 0 <= excessGenesSwitch && excessGenesSwitch <= 3
